@@ -28,6 +28,9 @@ TABLE = {
                 text="All histories up to depth 5 (6 thorough) from the empty state and depth 4 (5) from the fully registered state over 12 operations (toggle 5 class records, 2 methods, 4 definitions; update): after every update the predicted success/error, every legal call and next vs the model and vs a fresh process given the same registrations, and a second update changes nothing.", ref="3/C07"),
     "C08": dict(engine="E1 regx", technique="exhaustive enumeration of presentations of every inheritance graph in bounds (subsets between direct and transitive bases, self, duplicates, split records, rotations, record orders)",
                 text="For every poset in bounds every presentation: the lattice the real compiler reconstructs (covariant sets, direct bases), slot disjointness, dispatch and next all equal the model's.", ref="3/C08"),
+    "C09": dict(engine="E5 progx (+E1 virtual_ptr shapes)", technique="exhaustive enumeration inside generated programs over real class lattices: policies x definition subsets x (static, pointee) class pairs x construction routes, differential against the plain-reference twin method; exhaustive short histories for pointer validity across updates",
+                text="For four real lattices (incl. virtual inheritance and non-zero base offsets) every construction route of virtual_ptr / virtual_shared_ptr for every (static, pointee) pair under four policies and all 16 definition subsets dispatches like a plain reference and gives back the original object; every history up to depth 4 (5) of definition changes, updates, pointer creations and calls keeps earlier pointers valid as documented (across updates when indirect).", ref="3/C09",
+                note="Trusted base: g++ 12, e5/vptr.cpp. The twin virtual_<T&> method is itself validated by C01."),
     "C10": dict(engine="E1 regx", technique="bounded-exhaustive exploration of the same registries under six RTTI flavours (std, integer, many-to-one projection with/without hash, deferred with/without hash), all alias assignments, second update; reference model + cross-flavour digest",
                 text="Every registry in bounds is compiled and called under each RTTI flavour, each followed by a second update; for the two-ids-per-class flavours every assignment of aliases to every use of a class id (exhaustive up to 2^10..2^12, patterns beyond) and every alias of every argument. All outcomes equal the model and a digest of all outcomes is identical across flavours.", ref="3/C10"),
     "C12": dict(engine="E1 regx", technique="bounded-exhaustive exploration of registries with methods of arity 1..4: generated static-offset text parsed and compared with compiler result and installed arrays; static-offset branch of the real resolve; exhaustive single-number perturbations under the debug policy",
@@ -53,6 +56,9 @@ TABLE = {
     "C19": dict(engine="E7 fwdx", technique="exhaustive enumeration of name sets and of type-description derivations through the real generator, output parsed by an independent recursive-descent parser; sample compiled by g++",
                 text="Every declarable set of <= 3 (4) qualified names over prefix-colliding identifiers and depth <= 2 (3), and every derivation to depth 3 (4) of a demangle-style type grammar: output is balanced, declares each requested class exactly once in its namespace and nothing else; fundamental types, cv-qualifiers, template names, std:: and yorel:: are skipped.", ref="3/C19",
                 note="Trusted base: compiler, harness e7/fwdx.cpp and its 40-line parser. Names outside the grammar (anonymous namespaces, classes nested in templates) are not covered."),
+    "C11": dict(engine="E5 progx", technique="exhaustive enumeration of a finite grammar of generated programs (parameter kind x inheritance shape x position x companion category x return kind, two object layouts each), compiled from /repo/include with the macro front end, self-checking inside the definitions",
+                text="Every derivation of the grammar is generated, compiled (release and debug default policy) and run: each definition receives the caller's own object at the address the language's conversion gives (incl. offsets and virtual bases, two most-derived layouts), smart pointers share ownership, reference parameters alias, values and returns pass unchanged, rvalues are never copied. By-value rvalues are moved once per by-value layer: recorded as a known finding.", ref="3/C11",
+                note="Trusted base: g++ 12, lib/gen_args.py, e5/args_common.hpp. Finite grammar of programs."),
     "C20": dict(engine="E5 progx", technique="exhaustive enumeration of a finite program family (all list shapes with product <= 6 x both front-end branches x all not_defined subsets; large products across the 512 split x patterns), each program compiled from /repo/include and self-checking at run time",
                 text="Every program of the family is compiled and run: the definitions found in the method's catalog are exactly the defined combinations, every combination dispatches to its own definition, product is row-major. Exhaustive over the stated family, including the divide-and-conquer aggregate above 512 elements.", ref="3/C20",
                 note="Trusted base: g++ 12, the generator table in lib/engines.py, e5/usedefs.cpp. A finite grammar of programs; list counts above 3 are not generated."),
